@@ -341,6 +341,13 @@ def conforming(spec):
         opts = [base, base, base.map(_wrap_list)]
         if extra:
             opts += [st.sampled_from(extra), st.sampled_from(extra)]
+        if k == "con" and ("max_digits" in spec.get("c", {}) or "decimal_places" in spec.get("c", {})):
+            # numbers written with a positive exponent: their digits are not all in the coefficient
+            md = spec["c"].get("max_digits", 3)
+            expo = [{"t": "decimal", "v": f"1E+{md}"}, {"t": "decimal", "v": f"1E+{max(md - 1, 0)}"}, {"t": "decimal", "v": "12E+7"}, {"t": "decimal", "v": "9E+1"},
+                    {"t": "float", "v": "1e16"}, {"t": "float", "v": "3e18"}, {"t": "float", "v": "1.5e17"}, "3e18", "12e7", "1e2", "1E+1",
+                    {"t": "bytes", "v": "3165" + "32"}, {"t": "decimal", "v": "1.5E+3"}]
+            opts += [st.sampled_from(expo)]
         return st.one_of(*opts)
     if k in ("list", "set", "frozenset", "tuplev"):
         inner = st.one_of(conforming(spec["a"]), conforming(spec["a"]), conforming(spec["a"]), scalars)
